@@ -193,3 +193,29 @@ Proof.
     apply (blocks_fit_of_bounds c04z_opts c04z_input 1); [cbn; lia|cbn; unfold RTreeCodec.U32; lia|].
     unfold c04z_input, c04z_entries. cbn [map]. repeat (constructor; [cbn; lia|]). constructor.
 Qed.
+
+(* the same file written with the zlib "stored" encoder of Spec/Inflate.v and read with the Gallina inflater *)
+From BT Require Spec.Inflate Proofs.InflateStored.
+Definition c04_zlib_infl (b : list N) : list N := match Inflate.zlib_decode b with Some x => x | None => b end.
+Example C04_compressed_example_zlib :
+  (forall b, c04_zlib_infl (Inflate.zlib_store b) = b)
+  /\ match bb_write_z Inflate.zlib_store Float.ieee c04z_opts [(c04z_name, 2000)] None c04z_input with
+     | Ok f =>
+         Nlen f <= RTreeCodec.U64
+         /\ match read_info f with
+            | Ok i =>
+                h_ubuf (i_hdr i) = 64
+                /\ bb_interval c04_zlib_infl f i c04z_name 500 600 = Ok [ {| e_start := 0; e_end := 1000; e_rest := [] |} ]
+                /\ c_bb_history c04_zlib_infl f i cache0 [(c04z_name, 705, 900); (c04z_name, 500, 600); (c04z_name, 705, 900)]
+                   = [Ok [ {| e_start := 0; e_end := 1000; e_rest := [] |}; {| e_start := 700; e_end := 710; e_rest := [] |};
+                           {| e_start := 900; e_end := 901; e_rest := [] |} ];
+                      Ok [ {| e_start := 0; e_end := 1000; e_rest := [] |} ];
+                      Ok [ {| e_start := 0; e_end := 1000; e_rest := [] |}; {| e_start := 700; e_end := 710; e_rest := [] |};
+                           {| e_start := 900; e_end := 901; e_rest := [] |} ]]
+            | _ => False end
+     | _ => False
+     end.
+Proof.
+  split; [intros b; unfold c04_zlib_infl; now rewrite InflateStored.zlib_decode_stored|].
+  vm_compute. repeat split; try reflexivity; discriminate.
+Qed.
